@@ -167,6 +167,9 @@ func nativeReplayOpt(cases []*vpCase, race bool) (map[string]*vpResult, error) {
 		cmd.Dir = repoDir
 		cmd.Env = append(os.Environ(), "VP_REPLAY_IN="+in, "VP_REPLAY_OUT="+out, "GOFLAGS=", "GOPROXY=off", "GOSUMDB=off", "GOTOOLCHAIN=local", "GOWORK=off")
 		outb, rerr := cmd.CombinedOutput()
+		if os.Getenv("VP_DEBUG_REPLAY") != "" {
+			fmt.Fprintf(os.Stderr, "native replay (race=%v) output:\n%s\n", race, firstLines(string(outb), 25))
+		}
 		if race && strings.Contains(string(outb), "DATA RACE") {
 			rep := string(outb)
 			if i := strings.Index(rep, "WARNING: DATA RACE"); i >= 0 {
@@ -200,6 +203,14 @@ func nativeReplayOpt(cases []*vpCase, race bool) (map[string]*vpResult, error) {
 		remaining = next
 	}
 	return res, nil
+}
+
+func firstLines(s string, n int) string {
+	ls := strings.Split(s, "\n")
+	if len(ls) > n {
+		ls = ls[:n]
+	}
+	return strings.Join(ls, "\n")
 }
 
 func caseFromModel(id, harness string, params map[string]int, vars []interp.VarInfo, m interp.Model) *vpCase {
@@ -507,6 +518,20 @@ func cmdCheck(args []string) int {
 			return 3
 		}
 		raceReport := lastRaceReport
+		if chk.Race && raceReport == "" {
+			// a shared write reported by the engine races only while the shared state is cold: give the
+			// race detector a fresh process per attempt with that candidate alone
+			for _, v := range out.violations {
+				if v.Kind == "assert" && strings.HasSuffix(v.Label, "no-shared-write") {
+					for attempt := 0; attempt < 8 && raceReport == ""; attempt++ {
+						if _, err := nativeReplayOpt([]*vpCase{v.Case}, true); err == nil {
+							raceReport = lastRaceReport
+						}
+					}
+					break
+				}
+			}
+		}
 		for _, v := range out.violations {
 			r := res[v.Case.ID]
 			ok := false
